@@ -90,6 +90,13 @@ Theorem C07_xlink_declared : forall o t,
 Proof. exact xlink_declared. Qed.
 Print Assumptions C07_xlink_declared.
 
+(* has_xlink, modelled with its early returns (the hx_ functions of Model/Writer.v), answers true exactly when the tree holds an image, a
+   text on a path or a group with an feImage filter anywhere the field-by-field enumeration reaches *)
+Theorem C07_has_xlink_exact : forall root,
+  has_xlink root = true <-> exists m, In m (all_group root) /\ xlink_trigger m = true.
+Proof. intro root. apply has_xlink_iff. Qed.
+Print Assumptions C07_has_xlink_exact.
+
 (* ---- the root element is <svg xmlns=..> *)
 Theorem C07_root : forall o t, root_is_svg (write o t) = true.
 Proof. reflexivity. Qed.
